@@ -2,6 +2,7 @@ SPECIFICATION HSpec
 CONSTANTS
   Locked = TRUE
   Bodies <- BodiesH2
+  Modes <- OnlyAnsi
   TickMs <- Ticks1
   MaxTicks = 3
   MaxPre = 7
